@@ -1192,6 +1192,7 @@ impl<K: AsRef<Key>> SigningContext<K> {
             return Err(ServerError::unsigned(match err {
                 ValidationError::BadTrunc => TsigRcode::BADTRUNC,
                 ValidationError::BadKey => TsigRcode::BADKEY,
+                ValidationError::BadSig => TsigRcode::BADSIG,
                 _ => TsigRcode::FORMERR,
             }));
         }
